@@ -1639,7 +1639,7 @@ pub(crate) fn compute_module_path(
             let pkg = iface.package.unwrap();
             let pkgname = resolve.packages[pkg].name.clone();
             path.push(to_rust_ident(&pkgname.namespace));
-            path.push(name_package_module(resolve, pkg));
+            path.push(to_rust_ident(&name_package_module(resolve, pkg)));
             path.push(to_rust_ident(iface.name.as_ref().unwrap()));
         }
     }
